@@ -424,7 +424,7 @@ def relabel(y):
     return [u.index(v) for v in y]
 
 
-def random_float_scenario(rng, kind="sup", metric="euclidean", n=None, nu=0, nq=4, lattice=False, positive=False, mode=None, dim=None, classes=None):
+def random_float_scenario(rng, kind="sup", metric="euclidean", n=None, nu=0, nq=4, lattice=False, positive=False, mode=None, dim=None, classes=None, copies=True):
     """Float data scenario. lattice -> integer grid (many ties); positive -> strictly positive features."""
     np = _np()
     n = n or rng.choice([2, 2] + list(range(3, 13)) * 2)
@@ -452,14 +452,14 @@ def random_float_scenario(rng, kind="sup", metric="euclidean", n=None, nu=0, nq=
         Z = np.abs(Z) + 0.25
     # queries: some are copies of training rows (early-exit edge), some midpoints
     q0 = n + nu
-    for j in range(nq):
+    for j in range(nq if copies else 0):
         c = rng.random()
         if c < 0.3:
             Z[q0 + j] = Z[rng.randrange(n)]
         elif c < 0.45 and not lattice:
             Z[q0 + j] = (Z[rng.randrange(n)] + Z[rng.randrange(n)]) / 2
     # duplicates inside the training set
-    if rng.random() < 0.15 and n >= 4:
+    if copies and rng.random() < 0.15 and n >= 4:
         a, b = rng.sample(range(n), 2)
         Z[a] = Z[b]
     mode = mode or rng.choice(["metric", "metric", "pre"])
